@@ -361,6 +361,42 @@ def f12(ctx, rid):
                         'and its records are lost' % (kind, sorted('%s %s' % x for x in lv if x[0] in ('call', 'field')), sorted('%s %s' % x for x in ref[2] if x[0] in ('call', 'field'))))
 
 
+def f13(ctx, rid):
+    """`once the fault clears the storage accepts further operations`: an element registered in a shared collection for the
+    duration of an operation (an in-flight marker) is removed on every exit, error exits included - a `?` between the
+    registration and the plain removal statement leaves the marker behind after an I/O fault, and every retry of that key is
+    acknowledged as `already being written` without ever being stored"""
+    import props.c14 as c14
+    prog = ctx.prog
+    eff = c14.collection_effects(prog)
+    n = 0
+    bad = 0
+    for f in prog.fns.values():
+        if not f.is_coroutine or not (f.file.startswith('src/storage/') or f.file.startswith('src/blob/')):
+            continue
+        adds, rems = [], []
+        for c in f.calls:
+            if c.bb not in f.reachable() or c.name == 'poll':
+                continue
+            for t in prog.resolve(c):
+                for (fld, kind) in eff.get(t, ()):
+                    (adds if kind == 'add' else rems).append((c, fld))
+        for (a, fa) in adds:
+            mine = [r.bb for (r, fr) in rems if fr == fa and r is not a and r.bb in f.reach_from(f.after(a.bb))]
+            if not mine:
+                continue    # a lasting registration (closed-blob list, ..), not a marker of this operation
+            n += 1
+            key = 'registration-released-on-error|%s|%s' % (f.root, fa)
+            free = f.reach_from(f.after(a.bb), avoid_exit=mine)
+            errs = [bb for (bb, k, _) in core.exit_defs(f) if k == 'err' and bb in free]
+            if errs:
+                bad += 1
+                ctx.bad(rid, key, a.where(), '`%s` registers an element in `%s` for the duration of the operation, but an error exit (%s) is reachable without the removal: after a failed operation the marker stays and later operations on that element are refused or acknowledged without effect' % (a.name, fa, f.where(errs[0])))
+            else:
+                ctx.ok(rid, key, a.where(), 'removed on every exit', nontrivial=False)
+    ctx.ok(rid, 'scan', '', '%d per-operation registrations in shared collections, %d not released on an error exit' % (n, bad), nontrivial=False, queries=max(1, n))
+
+
 RULES = [
     Rule('C11.X3', 'no err-exit is reachable between a move-out of shared state and its hand-back', x3, 4),
     Rule('C11.L1', 'an error while handling a worker message never ends the maintenance loop (C13.L1 instances)', l1, 4),
@@ -373,5 +409,6 @@ RULES = [
     Rule('C11.F10', 'a stale index left behind by a failed dump is rejected at the next start (C03.I2 instances)', f10, 2),
     Rule('C11.F11', 'blob ids in use in the work dir or the quarantine dir are never handed out again (C07.H6 instances)', f11, 3),
     Rule('C11.F12', 'an index is dumped with the same notion of blob size it is later loaded and validated against', f12, 2),
+    Rule('C11.F13', 'a per-operation registration in a shared collection is removed on every exit, error exits included', f13, 1),
     Rule('C11.F6', 'an index file cut short by a failed dump is never trusted: written flag set in a second phase, extent checked at open (C03.I8/I5 instances)', f6, 2),
 ]
